@@ -69,6 +69,35 @@ class Ctx:
             return False
         return True
 
+    # ---- clauses shared with another property's check
+    def import_clauses(self, module_name, rule, instance_prefixes, as_rule):
+        """evaluate another property's rules on the same program and adopt the obligations of `rule` whose instance starts
+        with one of `instance_prefixes`, relabelled `as_rule` (a necessary condition shared by two properties is decided
+        once, by one piece of code).  Fails closed: if nothing matches, that is a violation."""
+        import importlib
+        cache = getattr(self.prog, "_clause_cache", None)
+        if cache is None:
+            cache = self.prog._clause_cache = {}
+        if module_name not in cache:
+            mod = importlib.import_module("rules.props." + module_name)
+            sub = Ctx(module_name.upper(), self.prog, self.tier, self.config)
+            try:
+                mod.run(sub)
+            except AnchorMissing as e:
+                sub.violation("anchor", "anchor-missing:%s" % e, "anchor %s not found" % e)
+            cache[module_name] = sub.obligations
+        n = 0
+        for o in cache[module_name]:
+            if o["rule"] == rule and any(o["instance"].startswith(p) for p in instance_prefixes):
+                o2 = dict(o)
+                o2["rule"] = as_rule
+                self.obligations.append(o2)
+                n += 1
+        if n == 0:
+            self.violation(as_rule, "shared-clauses-missing:%s:%s" % (rule, ",".join(instance_prefixes)),
+                           "no obligation of %s matching %s was produced by %s" % (rule, instance_prefixes, module_name))
+        return n
+
     # ---- results
     def violations(self):
         return [o for o in self.obligations if o["status"] == "violation"]
